@@ -26,6 +26,9 @@ func c12(c *Ctx) {
 	c12SSH(c)
 	c12LDAP(c)
 	c12FTP(c)
+	// a login lives in the connection object: the object a connection works with is its own (a recycled one has every field reset)
+	pooledObjectsReset(c, "session-object-fresh", "services/ftp", "services/ldap", "services/ssh")
+	c12FreshSession(c)
 }
 
 // ---------- helpers
@@ -1169,4 +1172,31 @@ func c12GateHelperForm(c *Ctx, ca *ssa.Function) bool {
 		}
 	}
 	return true
+}
+
+// c12FreshSession: the FTP session object that holds the login (the struct with the `user` the gate reads) is built
+// per connection: every value newConn can return is an allocation made in that call or an object taken from a pool
+// (whose reset is checked by session-object-fresh), never a package-level or service-level object.
+func c12FreshSession(c *Ctx) {
+	p := c.P
+	nc := p.Method("services/ftp", "Server", "newConn")
+	if !c.Anchor(nc != nil, "session-object-fresh", "(*ftp.Server).newConn") {
+		return
+	}
+	for i, r := range Returns(nc) {
+		ok := true
+		why := ""
+		for _, lf := range leaves(RetVals(r)[0]) {
+			switch x := lf.(type) {
+			case *ssa.Alloc:
+			case *ssa.TypeAssert, *ssa.Extract:
+				// pool form: checked above
+				_ = x
+			default:
+				ok = false
+				why = RenderN(lf, 3)
+			}
+		}
+		c.Check(ok, "session-object-fresh", fmt.Sprintf("newConn return[%d]", i), p.InstrPos(r), "a session object of this connection's own", "newConn hands out `"+why+"`, which is not an object made for this connection: the login state it carries is shared with other connections")
+	}
 }
